@@ -96,6 +96,9 @@ Normal(h) == h \notin EmptyHeights /\ h \notin OutsideHeights
 \* what an (inner) getter may answer to a request for the coordinates R
 Outcomes(R) == {[served |-> S, len0 |-> FALSE, kind |-> k] : S \in SUBSET R, k \in Kinds}
           \cup {[served |-> {}, len0 |-> TRUE, kind |-> k] : k \in Kinds}
+IsOutcome(o, R) ==          \* o \in Outcomes(R), without enumerating the set
+    /\ o.served \subseteq R /\ o.kind \in Kinds /\ o.len0 \in BOOLEAN
+    /\ o.len0 => o.served = {}
 \* what the availability receives: cascadeGetters returns the zero value on ANY error
 Through(o, viaCascade) ==
     IF viaCascade /\ o.kind # "none" THEN [served |-> {}, len0 |-> TRUE, kind |-> o.kind] ELSE o
@@ -212,14 +215,14 @@ GetterEnter(c) ==
 \* and looks at three things: the length, which samples are non-empty, and whether the error
 \* is context.Canceled
 GetterReturn(c, o, viaCascade) ==
-    /\ pc[c] = "inGetter" /\ o \in Outcomes(smp[c].rem)
+    /\ pc[c] = "inGetter" /\ IsOutcome(o, smp[c].rem)
     /\ LET h == hgt[c]  t == Through(o, viaCascade) IN
          /\ got' = [got EXCEPT ![c] = [served |-> t.served, len0 |-> t.len0,
                                        cancelled |-> (t.kind = "cancelled")]]
          /\ seen' = [seen EXCEPT ![h] = @ \cup t.served]
     /\ pc' = [pc EXCEPT ![c] = "post"]
     /\ Log([a |-> "ret", c |-> c, served |-> {Rank(smp[c].rem, x) : x \in o.served},
-            len0 |-> o.len0, kind |-> o.kind])
+            len0 |-> o.len0, kind |-> o.kind, casc |-> viaCascade])
     /\ UNCHANGED <<disk, buf, session, hgt, ctxDone, smp, woken, drawn, okGiven, lost, calls, envs>>
 
 \* availability.go:151-153  len(smpls) == 0 -> ErrNotAvailable
